@@ -144,8 +144,35 @@ func CheckMain(id, tier string) int {
 			if os.Getenv("VERIF_WORKER_GOMAXPROCS") != "" || ck.ID == "C18" {
 				cmd.Env = append(os.Environ(), "VERIF_WORKER=1")
 			}
-			err := cmd.Run()
+			// wall-clock backstop: a worker that makes no progress (e.g. blocked forever) is stopped; this only
+			// ever downgrades the run to exhaustive:false, it never raises an alarm
+			deadline := 20 * time.Minute
+			if tier == "thorough" {
+				deadline = 3 * time.Hour
+			}
+			if v := os.Getenv("VERIF_WORKER_DEADLINE_S"); v != "" {
+				if n, e := strconv.Atoi(v); e == nil {
+					deadline = time.Duration(n) * time.Second
+				}
+			}
+			err := cmd.Start()
+			timedOut := false
+			if err == nil {
+				done := make(chan error, 1)
+				go func() { done <- cmd.Wait() }()
+				select {
+				case err = <-done:
+				case <-time.After(deadline):
+					cmd.Process.Kill()
+					err = <-done
+					timedOut = true
+				}
+			}
 			lf.Close()
+			if timedOut {
+				crashed[i] = fmt.Sprintf("TIMEOUT worker %d/%d stopped after %s without finishing", i, n, deadline)
+				return
+			}
 			b, rerr := os.ReadFile(out)
 			if err != nil || rerr != nil {
 				lg, _ := os.ReadFile(logf)
@@ -174,8 +201,13 @@ func CheckMain(id, tier string) int {
 	var crashes []string
 	for i, r := range results {
 		if r == nil {
-			crashes = append(crashes, crashed[i])
 			m.Exhaustive = false
+			if strings.HasPrefix(crashed[i], "TIMEOUT") {
+				m.CapsHit = append(m.CapsHit, crashed[i])
+				fmt.Println("note:", crashed[i], "(reported as exhaustive:false, not as a violation)")
+				continue
+			}
+			crashes = append(crashes, crashed[i])
 			continue
 		}
 		m.Evals += r.Evals
@@ -323,6 +355,9 @@ func CheckMain(id, tier string) int {
 	}
 	for k, v := range m.Extra {
 		cov[k] = v
+	}
+	if v := os.Getenv("VERIF_INSTR_SUMMARY"); v != "" {
+		cov["instrumented_build"] = v
 	}
 	if ck.Level == "model_checking" {
 		cov["states"] = m.States
